@@ -11,7 +11,8 @@ EXTENDS Palette, Json
 CONSTANT Fam, Lens, BigLens
 
 H1 == [EmptyHeader EXCEPT !.alg = <<Assigned("Algorithm", "ES256")>>]
-HX == [EmptyHeader EXCEPT !.rest = << <<Z2I(99), Nat2I(1)>>, <<Ta, B1>> >>]                    \* extras only
+(* extras only: twelve of them, labels in DESCENDING order (a header is signed with its extras in the order they were given) *)
+HX == [EmptyHeader EXCEPT !.rest = << <<Z2I(99), Nat2I(1)>>, <<Ta, B1>> >> \o [k \in 1..10 |-> <<Z2I(98 - k), Nat2I(k)>>]]
 SigV == [prot |-> EmptyProt, unprot |-> EmptyHeader, sig |-> <<7>>]
 HC == [EmptyHeader EXCEPT !.cs = <<SigV>>]                                                      \* counter-signature only
 HK == [EmptyHeader EXCEPT !.alg = <<Assigned("Algorithm", "ES256")>>, !.kid = <<49, 49>>]
@@ -29,7 +30,7 @@ Prots == << [orig |-> <<>>, hdr |-> EmptyHeader],                 \* 1 built emp
             Decoded(<<162, 4, 66, 49, 49, 1, 38>>),              \* 10 decoded, unsorted keys
             (* built headers holding exactly ONE typed field each (the emptiness test must know every field) *)
             [orig |-> <<>>, hdr |-> [EmptyHeader EXCEPT !.crit = <<Assigned("HeaderParameter", "Alg")>>]],      \* 11
-            [orig |-> <<>>, hdr |-> [EmptyHeader EXCEPT !.ct = <<Assigned("CoapContentFormat", "Cbor")>>]],     \* 12
+            [orig |-> <<>>, hdr |-> [EmptyHeader EXCEPT !.ct = <<TextL(<<65, 47, 98, 59, 32, 81, 61, 90>>)>>]],    \* 12  "A/b; Q=Z": upper case, interior space
             [orig |-> <<>>, hdr |-> [EmptyHeader EXCEPT !.kid = <<49>>]],                                       \* 13
             [orig |-> <<>>, hdr |-> [EmptyHeader EXCEPT !.iv = <<1, 2>>]],                                      \* 14
             [orig |-> <<>>, hdr |-> [EmptyHeader EXCEPT !.piv = <<1, 2>>]],                                     \* 15
